@@ -3,6 +3,7 @@
 This module provides tools for generating 2D image cutouts.
 """
 
+import astropy.units as u
 import numpy as np
 from astropy.nddata import NoOverlapError, extract_array, overlap_slices
 from astropy.utils import lazyproperty
@@ -118,6 +119,10 @@ class CutoutImage:
                                     return_position=False)
         if self.copy:
             cutout_data = np.copy(cutout_data)
+        if (isinstance(data, u.Quantity)
+                and not isinstance(cutout_data, u.Quantity)):
+            # extract_array does not preserve units for partial overlap
+            cutout_data = cutout_data << data.unit
         return cutout_data
 
     def __array__(self, dtype=None):
